@@ -294,6 +294,20 @@ def outcome_request(d, site):
     return out
 
 
+def flow_token(r):
+    """The Ok payload of a stream-dispatch result as a token: ControlFlow variant name, or ('bool', value)."""
+    x = agg_field(r, 0)
+    if x is None:
+        return None
+    v = variant_of(x)
+    if v is not None:
+        return v
+    c = cv(x)
+    if c is not None:
+        return ('bool', c)
+    return None
+
+
 def outcome_stream(d):
     r = ir.peel(d.raw_ret)
     out = {}
@@ -306,7 +320,12 @@ def outcome_stream(d):
         e = ir.peel(agg_field(r, 0))
         out.update(kind='err', err=e[2].split("::")[-1] if e[0] == 'agg' else ir.show(e)[:40], hold=not any(k.startswith("self.") for k in w))
         return out
-    flow = variant_of(agg_field(r, 0))
+    flow = flow_token(r)
+    # the verdict "go round again / hand control back" may be carried by ControlFlow, bool, ..: the value returned when the header is
+    # still incomplete (nothing can be done) is the one that means "stop"
+    stop = getattr(d, "stop_token", None)
+    if stop is not None and flow is not None:
+        flow = 'Break' if flow == stop else 'Continue'
     out['flow'] = flow
     st = w.get("self.state")
     selfw = {k for k in w if k.startswith("self.")}
@@ -396,6 +415,19 @@ def r4_1_tables(rep, facts):
         g, rows = dispatch.site_rows(facts, body)
         hit = set()
         n = 0
+        if site == 'stream':
+            # the result value of the "header still incomplete" path (no field is written on it) is the stop verdict
+            stops = set()
+            for d in rows:
+                r0 = ir.peel(d.raw_ret)
+                if variant_of(r0) == 'Ok' and not d.replies and not any(pl[0] == 'field' for (pl, val, nd, s_) in d.row.writes) and 'decode' not in d.atoms:
+                    tk = flow_token(r0)
+                    if tk is not None:
+                        stops.add(tk)
+            if len(stops) == 1:
+                st_tok = next(iter(stops))
+                for d in rows:
+                    d.stop_token = st_tok
         for d in rows:
             A = dict(d.atoms)
             if site == 'stream' and 'have_header' not in A:
